@@ -4,10 +4,13 @@
    prop = MergeApi.prop_ext / prop_sid: on the property's domain (valid IDs, target zooms 0..35) the observed list parses and
           MergeCheck.check_merge accepts it (proved in MergeCheckProof.check_merge_correct to decide the specification exactly):
           no duplicates, exactly the specification set (filled targets replaced, everything else unchanged; "filled" decided by the
-          dyadic-box reference), same covered region on unit cells, and the model's merge of the observed list changes nothing.
-   A case beyond the shared work bound (Merge.within_bound) is executed on neither side: the harness reports "skipped". *)
+          dyadic-box reference), same covered region on unit cells, canonical spelling. Idempotence and translation of the
+          IMPLEMENTATION are observed by the entries MergeTwice / MergeShifted (two real calls each).
+   A case beyond the shared work bound (Merge.within_bound, recomputed here from the arguments) is executed on neither side: the
+   invoker answers "skipped:work-bound" and the entry answers class "skipped" (counted apart: neither an evaluation nor a pass);
+   a "skipped" marker for a case that is within the bound is a bad case. *)
 From Coq Require Import ZArith String List Bool.
-From SID Require Import Base Str Ids ZoomCore Wire Merge MergeCheck MergeApi MergeHelpers.
+From SID Require Import Base Str Ids ZoomCore Wire Merge MergeCheck MergeIdem MergeApi MergeHelpers.
 Import ListNotations.
 Open Scope string_scope.
 
@@ -40,7 +43,7 @@ Definition d_merge_ext (args : list val) (obs : val) : verdict :=
             | _ => let m := merge_ext_api ids H V in
                    mkv (corr_of m obs) (prop_ext ids H V obs) "-" (match m with Ok l => of_LS l | Err => VE VNil end)
             end
-          else match obs with VS s => if String.eqb s skipped then mkv true true "-" VNil else bad_case | _ => bad_case end
+          else match obs with VS s => if String.eqb s skipped then mkv true true "skipped" VNil else bad_case | _ => bad_case end
       | None => bad_case
       end
   | _ => bad_case
@@ -58,7 +61,90 @@ Definition d_merge_sid (args : list val) (obs : val) : verdict :=
             | _ => let m := merge_sid_api ids z in
                    mkv (corr_of m obs) (prop_sid ids z obs) "-" (match m with Ok l => of_LS l | Err => VE VNil end)
             end
-          else match obs with VS s => if String.eqb s skipped then mkv true true "-" VNil else bad_case | _ => bad_case end
+          else match obs with VS s => if String.eqb s skipped then mkv true true "skipped" VNil else bad_case | _ => bad_case end
+      | None => bad_case
+      end
+  | _ => bad_case
+  end.
+
+(* ---- metamorphic entries: relations between two calls of the REAL function ---- *)
+Definition skip_or_bad (obs : val) : verdict :=
+  match obs with VS s => if String.eqb s skipped then mkv true true "skipped" VNil else bad_case | _ => bad_case end.
+Definition res_val (m : result (list string)) : val := match m with Ok l => of_LS l | Err => VE VNil end.
+
+(* MergeTwice: out1 = Merge(ids, H, V), out2 = Merge(out1, H, V), both observed on the implementation.
+   corr: both equal the model's; prop (valid inputs): out1 is accepted by the checker and out2 has exactly the members of out1, none twice *)
+Definition d_merge_twice (args : list val) (obs : val) : verdict :=
+  match args with
+  | [ids; VZ H; VZ V] =>
+      match as_LS ids with
+      | Some ids =>
+          if runnable ids H V then
+            match obs with
+            | VL [o1; o2] =>
+                match as_LS o1 with
+                | Some l1 =>
+                    if runnable l1 H V then
+                      let m1 := merge_ext_api ids H V in
+                      let m2 := match m1 with Ok r => merge_ext_api r H V | Err => Err end in
+                      let p := prop_ext ids H V o1 &&
+                               match parse_all ids with
+                               | Some l => if in_domain l H V
+                                           then match as_LS o2 with
+                                                | Some l2 => match parse_all l1, parse_all l2 with
+                                                             | Some a, Some b => nodup_eids b && set_eqb b a && list_eqb String.eqb (map print_eid b) l2
+                                                             | _, _ => false
+                                                             end
+                                                | None => false
+                                                end
+                                           else true
+                               | None => true
+                               end in
+                      mkv (corr_of m1 o1 && corr_of m2 o2) p "-" (VL [res_val m1; res_val m2])
+                    else match o2 with VS s => if String.eqb s skipped then mkv true true "skipped" VNil else bad_case | _ => bad_case end
+                | None => bad_case
+                end
+            | VE _ => let m1 := merge_ext_api ids H V in mkv (corr_of m1 obs) (prop_ext ids H V obs) "-" (res_val m1)
+            | _ => bad_case
+            end
+          else skip_or_bad obs
+      | None => bad_case
+      end
+  | _ => bad_case
+  end.
+
+(* MergeShifted: out = Merge(ids, H, V) and outS = Merge(ids shifted vertically by k whole zoom-0 cells, H, V), both observed.
+   corr: both equal the model's; prop (valid ids): out accepted by the checker, outS = out shifted by k (same members, none twice) *)
+Definition shift_ids (k : Z) (l : list eid) : list string := map (fun i => print_eid (shiftf k i)) l.
+Definition d_merge_shifted (args : list val) (obs : val) : verdict :=
+  match args with
+  | [ids; VZ H; VZ V; VZ k] =>
+      match as_LS ids with
+      | Some ids =>
+          match parse_all ids with
+          | Some l =>
+              if runnable ids H V && (Z.abs k <=? 4)%Z && forallb (fun i => (0 <=? ev i) && (ev i <=? 35))%Z l then
+                match obs with
+                | VL [o1; o2] =>
+                    let m1 := merge_ext_api ids H V in
+                    let m2 := merge_ext_api (shift_ids k l) H V in
+                    let p := prop_ext ids H V o1 &&
+                             (if in_domain l H V
+                              then match as_LS o1, as_LS o2 with
+                                   | Some l1, Some l2 => match parse_all l1, parse_all l2 with
+                                                         | Some a, Some b => nodup_eids b && set_eqb b (map (shiftf k) a) && list_eqb String.eqb (map print_eid b) l2
+                                                         | _, _ => false
+                                                         end
+                                   | _, _ => false
+                                   end
+                              else true) in
+                    mkv (corr_of m1 o1 && corr_of m2 o2) p "-" (VL [res_val m1; res_val m2])
+                | VE _ => let m1 := merge_ext_api ids H V in mkv (corr_of m1 obs) (prop_ext ids H V obs) "-" (res_val m1)
+                | _ => bad_case
+                end
+              else if runnable ids H V then bad_case else skip_or_bad obs
+          | None => bad_case
+          end
       | None => bad_case
       end
   | _ => bad_case
@@ -83,7 +169,8 @@ Definition d_higher (args : list val) (obs : val) : verdict :=
   end.
 
 (* the exported merge helpers as stand-alone API: a scripted sequence (construct units and highs, Merge receivers/arguments —
-   the same argument object reused —, snapshots of every object before and after every Merge); model = MergeHelpers.script_model
+   the same argument object reused —, snapshots of every object before and after every Merge; then setter steps
+   SetX/SetZoom on constructed units and a read-back of the ORIGINAL argument IDs and of the units' IDs); model = MergeHelpers.script_model
    (heap with the aliasing the code creates), prop = MergeHelpers.script_prop (argument unchanged, receiver = union, nothing else
    touched, IsDense = count test, construction = dyadic reference), computed from the observations alone *)
 Definition dec_uspec (v : val) : option uspec :=
@@ -92,22 +179,25 @@ Definition dec_hspec (v : val) : option hspec :=
   match v with VL [VZ k; VZ hd; VZ vd] => if (0 <=? k)%Z then Some (Z.to_nat k, hd, vd) else None | _ => None end.
 Definition dec_op (v : val) : option (nat * nat) :=
   match v with VL [VZ r; VZ a] => if ((0 <=? r) && (0 <=? a))%Z then Some (Z.to_nat r, Z.to_nat a) else None | _ => None end.
+Definition dec_set (v : val) : option sspec :=
+  match v with VL [VZ j; VZ x; VZ hz; VZ vz] => if (0 <=? j)%Z then Some (Z.to_nat j, x, hz, vz) else None | _ => None end.
 Definition d_helpers (args : list val) (obs : val) : verdict :=
   match args with
-  | [VL us; VL hs; VL ops] =>
-      match all_opt (map dec_uspec us), all_opt (map dec_hspec hs), all_opt (map dec_op ops) with
-      | Some us, Some hs, Some ops =>
-          if script_ok us hs ops then
+  | [VL us; VL hs; VL ops; VL sets] =>
+      match all_opt (map dec_uspec us), all_opt (map dec_hspec hs), all_opt (map dec_op ops), all_opt (map dec_set sets) with
+      | Some us, Some hs, Some ops, Some sets =>
+          if script_ok us hs ops sets then
             match obs with
             | VPanic | VTimeout => bad_case
-            | _ => let m := script_model us hs ops in mkv (val_eqb m obs) (script_prop us hs ops obs) "-" m
+            | _ => let m := script_model us hs ops sets in mkv (val_eqb m obs) (script_prop us hs ops sets obs) "-" m
             end
           else bad_case
-      | _, _, _ => bad_case
+      | _, _, _, _ => bad_case
       end
   | _ => bad_case
   end.
 
 Definition table_C04 : table :=
   [("MergeExtendedSpatialIds", fun _ => d_merge_ext); ("MergeSpatialIds", fun _ => d_merge_sid); ("Higher", fun _ => d_higher);
+   ("MergeTwice", fun _ => d_merge_twice); ("MergeShifted", fun _ => d_merge_shifted);
    ("HighSpatialIDOps", fun _ => d_helpers); ("MergeHelperSequence", fun _ => d_helpers)].
